@@ -9,6 +9,7 @@
 #include "stir/IndexRange3D.h"
 #include "stir/CartesianCoordinate3D.h"
 #include "stir/recon_buildblock/ProjMatrixByBinUsingRayTracing.h"
+#include "stir/recon_buildblock/ProjMatrixByBinUsingInterpolation.h"
 #include "stir/recon_buildblock/ProjMatrixElemsForOneBin.h"
 #include "stir/recon_buildblock/DataSymmetriesForBins_PET_CartesianGrid.h"
 #include "stir/recon_buildblock/SymmetryOperation.h"
@@ -33,6 +34,8 @@ struct GridCfg {
   int oz = 0;                   // z origin in planes
   float ox = 0.F, oy = 0.F;     // x,y origin in mm
 };
+// options of the matrix object that belong to the "geometry" it is set up for
+struct MatOpt { int ntl = 1; bool uadb = false; bool cyl = true; };   // tangential rays, use_actual_detector_boundaries, restrict_to_cylindrical_FOV
 struct Sw { bool s90 = true, s180 = true, sseg = true, ss = true, sz = true; };
 inline Sw sw_from_bits(int m) { Sw s; s.s90 = m & 1; s.s180 = m & 2; s.sseg = m & 4; s.ss = m & 8; s.sz = m & 16; return s; }
 inline std::vector<int> sw_list(const Sw& s) { return { s.s90, s.s180, s.sseg, s.ss, s.sz }; }
@@ -65,6 +68,30 @@ inline shared_ptr<ProjMatrixByBinUsingRayTracing> make_matrix(const Sw& s, int n
   return m;
 }
 
+// ProjMatrixByBinUsingInterpolation has no setters: its switches and cache mode go through its parameter parsing
+inline std::string interpolation_parameters(const Sw& s, bool cache_on, bool basic_only) {
+  std::ostringstream o;
+  o << "Interpolation Matrix Parameters :=\n"
+    << "disable caching := " << (cache_on ? 0 : 1) << "\n"
+    << "store_only_basic_bins_in_cache := " << (basic_only ? 1 : 0) << "\n"
+    << "do_symmetry_90degrees_min_phi := " << (s.s90 ? 1 : 0) << "\n"
+    << "do_symmetry_180degrees_min_phi := " << (s.s180 ? 1 : 0) << "\n"
+    << "do_symmetry_swap_segment := " << (s.sseg ? 1 : 0) << "\n"
+    << "do_symmetry_swap_s := " << (s.ss ? 1 : 0) << "\n"
+    << "do_symmetry_shift_z := " << (s.sz ? 1 : 0) << "\n"
+    << "End Interpolation Matrix Parameters :=\n";
+  return o.str();
+}
+inline bool parse_interpolation(ProjMatrixByBinUsingInterpolation& m, const Sw& s, bool cache_on, bool basic_only) {
+  std::istringstream in(interpolation_parameters(s, cache_on, basic_only));
+  return m.parse(in);
+}
+inline void apply_options(ProjMatrixByBinUsingRayTracing& m, const MatOpt& o) {
+  m.set_num_tangential_LORs(o.ntl);
+  m.set_use_actual_detector_boundaries(o.uadb);
+  m.set_restrict_to_cylindrical_FOV(o.cyl);
+}
+
 // ---------------------------------------------------------------- encodings
 inline std::vector<int> bin_list(const Bin& b) {
   return { b.segment_num(), b.axial_pos_num(), b.view_num(), b.tangential_pos_num(), b.timing_pos_num() };
@@ -82,7 +109,8 @@ inline std::vector<Bin> all_bins(const ProjDataInfo& pdi) {
 
 // the data geometry as the implementation describes it (same fields as C01's Config line) and the grid as
 // seen from the scanner.  Real numbers are logged in fixed point, 2^-12 units (ratios: 2^-10).
-inline void emit_geometry(vh::Json& j, const DataCfg& d, const ProjDataInfoCylindrical& pdi, const VoxelsOnCartesianGrid<float>& im, int ntl) {
+inline void emit_geometry(vh::Json& j, const DataCfg& d, const ProjDataInfoCylindrical& pdi, const VoxelsOnCartesianGrid<float>& im,
+                          const MatOpt& o = MatOpt(), const std::string& impl = "RayTracing") {
   std::vector<std::vector<int>> segs;
   for (int s = pdi.get_min_segment_num(); s <= pdi.get_max_segment_num(); ++s)
     segs.push_back({ s, pdi.get_min_ring_difference(s), pdi.get_max_ring_difference(s), pdi.get_min_axial_pos_num(s), pdi.get_max_axial_pos_num(s) });
@@ -99,7 +127,8 @@ inline void emit_geometry(vh::Json& j, const DataCfg& d, const ProjDataInfoCylin
   j.num("zmin", lo.z()).num("zmax", hi.z()).num("ymin", lo.y()).num("ymax", hi.y()).num("xmin", lo.x()).num("xmax", hi.x())
       .num("vx", vh::fx(vs.x(), 12)).num("vy", vh::fx(vs.y(), 12)).num("vz", vh::fx(vs.z(), 12))
       .num("ox", vh::fx(org.x(), 12)).num("oy", vh::fx(org.y(), 12))
-      .num("nppr1024", vh::fx(pdi.get_ring_spacing() / vs.z(), 10)).num("oz1024", vh::fx(org.z() / vs.z(), 10)).num("ntl", ntl);
+      .num("nppr1024", vh::fx(pdi.get_ring_spacing() / vs.z(), 10)).num("oz1024", vh::fx(org.z() / vs.z(), 10))
+      .num("ntl", o.ntl).boolean("uadb", o.uadb).boolean("cyl", o.cyl).str("impl", impl);
 }
 
 const int ROW_SCALE = 20;   // row values are logged as round(v * 2^20)
